@@ -86,6 +86,11 @@ def run(ctx):
 
     run_trial = p.func(OPT + "._run_trial")
     inline = {n: p.func(TELL + "." + n) for n in ("_tell_with_warning", "_check_state_and_values", "_check_values_are_feasible", "_get_frozen_trial")}
+    # every other module-level helper of the tell module is explored in place as well, so that splitting
+    # _tell_with_warning into helpers does not hide a path from the exploration
+    for q, fn in p.funcs.items():
+        if q.startswith(TELL + ".") and q.count(".") == TELL.count(".") + 1 and fn.name not in inline:
+            inline[fn.name] = fn
 
     # ------------------------------------------------------------ R02.1
     ctx.rule("R02.1", "store on every path: abstract exploration of _run_trial (callees inlined) from after ask() to every exit")
